@@ -205,6 +205,8 @@ func runC02(r *Run) {
 		}
 	}
 	r.count("byte0.exhaustive")
+	// the streaming decoder reads the same layout: every position of the ring's end inside the header fields
+	r.wrapSweep(1200, false)
 }
 
 func samePK(v int, a, b *PK, orig []byte) string {
@@ -342,6 +344,9 @@ func runC01(r *Run) {
 		}
 		r.rtCase(v, p, g.threshold(len(p.Body)))
 	}
+	// the streaming entry point on a ring whose end falls inside the frame (every header offset; body and metadata
+	// offsets in steps), and frames that are both signed and compressed
+	r.wrapSweep(41, false)
 	// metadata that fills the 65535-byte block exactly, or leaves one byte (v2): key "a" -> 32767 bytes (2+2+32767),
 	// key "b" -> 32760 / 32759 bytes
 	for _, vb := range []int{32760, 32759} {
@@ -777,33 +782,7 @@ func runC03(r *Run) {
 			r.streamCase(v, codec, stream, all, 16, g.Intn(16), entries, want, "bytewise")
 		}
 	}
-	// every wrap position of every field: one frame with distinct length bytes (body 0x010203 is too big: use 0x0102+...)
-	for v := 1; v <= 2; v++ {
-		for ty := 1; ty <= 3; ty++ {
-			f := &RefFrame{V: v, Type: ty, Verify: true, Cmd: 0xC1, Rid: 0xA1A2A3A4, Timeout: 0xB1B2, Status: 0xD1, Nonce: 0xE1E2E3E4E5E6E7E8,
-				Sig: []byte("0123456789abcdef"), Body: g.body(0x0203), MLenField: -1, BLenField: -1}
-			if v == 2 {
-				f.Meta = refMarshalMap(map[string]string{"key": strings.Repeat("v", 0x0105)}, 65535)
-			}
-			fr := f.encode()
-			o, _ := implUnpackBytes(v, newCtx(1, uint8(v)), fr)
-			want := []string{strings.TrimPrefix(o, "OK "), strings.TrimPrefix(o, "OK ")}
-			stream := append(append([]byte(nil), fr...), fr...)
-			capacity := 1200
-			step := 7
-			if r.thorough() {
-				step = 1
-			}
-			for off := 0; off < capacity; off += step {
-				r.streamCase(v, 1, stream, nil, capacity, off, "", want, "wrap-sweep")
-			}
-			// the offsets that put the wrap inside the header fields, always
-			for off := capacity - 20; off < capacity; off++ {
-				r.streamCase(v, 1, stream, nil, capacity, off, "", want, "wrap-header")
-				r.streamCase(v, 1, stream, []int{len(fr) / 2}, capacity, off, "", want, "wrap-header")
-			}
-		}
-	}
+	r.wrapSweep(map[bool]int{true: 1, false: 7}[r.thorough()], true)
 }
 
 func sortInts(a []int) {
@@ -1250,5 +1229,50 @@ func implPackQuiet(v int, ctx *protocol.Context, n uint8) {
 	}
 	if pr, err := protocol.GetProtocol(uint8(v)); err == nil {
 		pr.Pack(ctx, &p)
+	}
+}
+
+// wrapSweep: one signed frame per version and type (twice, back to back) through a ring of 1200 bytes at start offsets
+// 0, step, 2*step, ... and at every offset that puts the physical end of the ring inside the first frame's header;
+// plus, per version, a frame that is both signed and gzip-compressed. Header fields have pairwise distinct bytes.
+func (r *Run) wrapSweep(step int, full bool) {
+	g := r.rng
+	for v := 1; v <= 2; v++ {
+		for ty := 1; ty <= 3; ty++ {
+			f := &RefFrame{V: v, Type: ty, Verify: true, Cmd: 0xC1, Rid: 0xA1A2A3A4, Timeout: 0xB1B2, Status: 0xD1, Nonce: 0xE1E2E3E4E5E6E7E8,
+				Sig: []byte("0123456789abcdef"), Body: g.body(0x0203), MLenField: -1, BLenField: -1}
+			if v == 2 {
+				f.Meta = refMarshalMap(map[string]string{"key": strings.Repeat("v", 0x0105)}, 65535)
+			}
+			fr := f.encode()
+			o, _ := implUnpackBytes(v, newCtx(1, uint8(v)), fr)
+			// three copies: the third one is written over the place of the first (a delivered packet must not change)
+			want := []string{strings.TrimPrefix(o, "OK "), strings.TrimPrefix(o, "OK "), strings.TrimPrefix(o, "OK ")}
+			stream := append(append(append([]byte(nil), fr...), fr...), fr...)
+			capacity := 1200
+			// chunks no larger than a frame, so that the ring never has to grow (growing would undo the wrap)
+			cuts := []int{len(fr) / 2, len(fr), len(fr) + len(fr)/3, 2 * len(fr), 2*len(fr) + len(fr)/2}
+			for off := 0; off < capacity; off += step {
+				r.streamCase(v, 1, stream, cuts, capacity, off, "", want, "wrap-sweep")
+			}
+			// the offsets that put the wrap inside the header fields, always
+			for off := capacity - 20; off < capacity; off++ {
+				r.streamCase(v, 1, stream, cuts, capacity, off, "", want, "wrap-header")
+				if full {
+					r.streamCase(v, 1, stream, nil, capacity, off, "", want, "wrap-header")
+				}
+			}
+		}
+		// signed AND compressed: trailer and decompression both apply
+		plain := []byte(strings.Repeat("signed and compressed body ", 20))
+		cb := stdCompress(plain)
+		gf := &RefFrame{V: v, Type: 2, Verify: true, Gzip: true, Cmd: 0x21, Rid: 77, Status: 0, Nonce: 0x0102030405060708,
+			Sig: []byte("fedcba9876543210"), Body: cb, MLenField: -1, BLenField: -1}
+		gfr := gf.encode()
+		o, _ := implUnpackBytes(v, newCtx(1, uint8(v)), gfr)
+		want := []string{strings.TrimPrefix(o, "OK ")}
+		ent := " " + gzrEntry(cb)
+		r.streamCase(v, 1, gfr, nil, 4096, 0, ent, want, "signed-gzip")
+		r.streamCase(v, 1, gfr, []int{len(gfr) / 3, 2 * len(gfr) / 3}, 64, 5, ent, want, "signed-gzip")
 	}
 }
